@@ -26,8 +26,8 @@ type glin struct {
 	t map[gsym]int64
 }
 
-func gk(c int64) glin    { return glin{c: c, t: map[gsym]int64{}} }
-func gs(s gsym) glin     { return glin{t: map[gsym]int64{s: 1}} }
+func gk(c int64) glin { return glin{c: c, t: map[gsym]int64{}} }
+func gs(s gsym) glin  { return glin{t: map[gsym]int64{s: 1}} }
 func (a glin) add(b glin, k int64) glin {
 	r := glin{c: a.c + k*b.c, t: map[gsym]int64{}}
 	for s, x := range a.t {
